@@ -109,4 +109,13 @@ def rawKind (enc : Encoding) (name : Nat) : Form → Kind
   | .rnglistx => .debugRngListsIndex
   | .indirect | .unknown _ => .data1
 
+/-- the attribute values of one entry, written one after the other in the order of the
+abbreviation's specifications -/
+def encodeAttrs (enc : Encoding) : List (Spec × Payload) → Option Bytes
+  | [] => some []
+  | (s, p) :: rest =>
+    match encodeForm enc s.form p, encodeAttrs enc rest with
+    | some b, some bs => some (b ++ bs)
+    | _, _ => none
+
 end Gimli.Spec.Attr
